@@ -328,9 +328,11 @@ def run(ctx):
         if not succ or any(gc.nodes[e]["k"] == "call" and gc.nodes[e].get("callee") in progress for bb in C.reachable_blocks(gc, succ[0]) for e in gc.blocks[bb].elems):
             continue            # not an edge that gives up
         nfail[0] += 1
-        region = C.only_via_edge(gc, b, fail_lab)
-        sets = any(gc.nodes[e]["k"] == "bin" and gc.nodes[e]["op"] == "=" and gc.show(gc.nodes[e]["l"]) == "errno" and C.const_of(gc, gc.nodes[e]["r"]) == EPROTO
-                   for bb in region for e in gc.blocks[bb].elems)
+        def sets_eproto(bb):
+            return any(gc.nodes[e]["k"] == "bin" and gc.nodes[e]["op"] == "=" and gc.show(gc.nodes[e]["l"]) == "errno" and C.const_of(gc, gc.nodes[e]["r"]) == EPROTO
+                       for e in gc.blocks[bb].elems)
+        # every path from the failing edge to the function's exit assigns EPROTO
+        sets = C.must_pass(gc, succ, sets_eproto)
         if sets or callee in guarantees:
             r7.ok("failure of %s(): EPROTO %s" % (callee, "set on the failing edge" if sets else "guaranteed by the callee's own failing exits"), "control dependence / callee exits")
         else:
